@@ -21,6 +21,7 @@ import (
 	"sort"
 	"strings"
 	"sync"
+	"syscall"
 	"time"
 
 	"github.com/TarsCloud/TarsGo/tars/protocol/codec"
@@ -95,12 +96,16 @@ type c10Req struct {
 }
 
 type c10Scn struct {
-	Cfg    c10Cfg   `json:"cfg"`
-	UDP    bool     `json:"udp"`
-	Kind   string   `json:"kind"` // plain | queue | race-handle | race-queue | sched (own TarsServer around a recording protocol wrapper)
-	Conns  int      `json:"conns"`
-	Chunks []int    `json:"chunks,omitempty"` // TCP write sizes (cyclic)
-	Reqs   []c10Req `json:"reqs"`
+	Cfg    c10Cfg `json:"cfg"`
+	UDP    bool   `json:"udp"`
+	Kind   string `json:"kind"` // plain | queue | race-handle | race-queue | sched (own TarsServer around a recording protocol wrapper)
+	Conns  int    `json:"conns"`
+	Chunks []int  `json:"chunks,omitempty"` // TCP write sizes (cyclic)
+	// halfclose scenarios (TCP): connection 0 carries the blockers and stays open; every other connection sends its
+	// requests StaggerMs later, then shuts down its sending side (FIN) and keeps reading until the server closes
+	HalfClose bool     `json:"half_close,omitempty"`
+	StaggerMs int      `json:"stagger_ms,omitempty"`
+	Reqs      []c10Req `json:"reqs"`
 	// observations
 	Obs       []B      `json:"obs"`        // every reply the server wrote, in arrival order over all connections
 	ObsConn   []int    `json:"obs_conn"`   // per reply: the connection (socket) it arrived on; request i was sent on connection i mod conns
@@ -610,7 +615,7 @@ func c10Monitor(s *c10Scn) []c10Fail {
 	for i := range s.Reqs {
 		ids[s.Reqs[i].ID] = true
 	}
-	timingScn := s.Cfg.HT > 0 || s.Kind == "queue" || s.UDP
+	timingScn := s.Cfg.HT > 0 || s.Kind == "queue" || s.UDP || s.HalfClose
 	onConn := map[int32]int{}
 	for i := range s.Reqs {
 		onConn[s.Reqs[i].ID] = i % s.Conns
@@ -986,6 +991,54 @@ func c10GenQueue(rng *rand.Rand, cfg c10Cfg, udp bool, tier string) c10Scn {
 	return s
 }
 
+// the client goes quiet after sending: connection 0 keeps the workers busy (pool) with slow calls, connection 1 sends
+// its requests a little later, half-closes (FIN) and only reads from then on. The server's receive loop for connection 1
+// ends at once; every request it has read - still queued behind the busy workers, or running (no pool: the request is
+// slow itself) - must nevertheless be answered exactly once before the server closes the connection.
+func c10GenHalfClose(rng *rand.Rand, cfg c10Cfg, tier string) c10Scn {
+	s := c10Scn{Cfg: cfg, Kind: "halfclose", Conns: 2, Chunks: []int{4096}, HalfClose: true, StaggerMs: 60}
+	slow := int32(1300) // longer than two rounds of the receive loop's 500 ms quiescence poll
+	if cfg.HT > 0 {
+		slow = int32(3 * cfg.HT)
+	}
+	nb := cfg.Pool
+	nq := 2 + rng.Intn(3)
+	n := 2 * nq
+	if 2*nb > n {
+		n = 2 * nb
+	}
+	ids := c10DistinctIDs(rng, n)
+	for i := 0; i < n; i++ {
+		q := c10GenReq(rng, cfg, ids[i])
+		if i%2 == 0 { // connection 0
+			if i/2 < nb {
+				q.Role, q.Func, q.SleepMs, q.PType = "blocker", c10PickFn(rng), slow, c10Normal
+				if !c10IsKnownVer(q.Ver) {
+					q.Ver = c10VerTars
+				}
+			}
+		} else { // connection 1: half-closed after sending
+			if i/2 >= nq {
+				q.PType = c10OneWay // filler to keep the round-robin assignment: nothing expected
+			} else if rng.Intn(3) != 0 {
+				q.PType = c10Normal
+			}
+			if cfg.Pool == 0 && i == 1 {
+				q.Func, q.SleepMs, q.PType = c10PickFn(rng), slow, c10Normal // running, not queued, when the FIN arrives
+				if !c10IsKnownVer(q.Ver) {
+					q.Ver = c10VerJSON
+				}
+			}
+		}
+		if q.Ver == c10VerJSON {
+			q.Msg = c10RandBytes(rng, true)
+		}
+		c10Encode(&q)
+		s.Reqs = append(s.Reqs, q)
+	}
+	return s
+}
+
 // races (handle timeout configured): handlers that run for about the handle timeout, so that the goroutine running
 // Invoke and the deadline really race; every outcome the schedules theorem allows is accepted, nothing else
 func c10GenRaceHandle(rng *rand.Rand, cfg c10Cfg, udp bool, tier string) c10Scn {
@@ -1125,9 +1178,9 @@ func c10Configs(tier string) []c10Cfg {
 
 func c10Gen(tier string, rng *rand.Rand) []c10Scn {
 	var out []c10Scn
-	nt, nu, nq, nr, ns := 12, 6, 4, 2, 2
+	nt, nu, nq, nr, ns, nh := 12, 6, 4, 2, 2, 2
 	if tier == "thorough" {
-		nt, nu, nq, nr, ns = 90, 36, 12, 8, 8
+		nt, nu, nq, nr, ns, nh = 90, 36, 12, 8, 8, 8
 	}
 	for _, cfg := range c10Configs(tier) {
 		for i := 0; i < nt; i++ {
@@ -1135,6 +1188,12 @@ func c10Gen(tier string, rng *rand.Rand) []c10Scn {
 		}
 		for i := 0; i < nu; i++ {
 			out = append(out, c10GenPlain(rng, cfg, true, tier))
+		}
+		for i := 0; i < nh; i++ {
+			if tier != "thorough" && i > 0 && !(cfg.Pool > 0 && cfg.HT == 0) {
+				break // quick: twice where requests really wait in the pool's queue for longer than the quiescence poll, once elsewhere
+			}
+			out = append(out, c10GenHalfClose(rng, cfg, tier))
 		}
 		if cfg.Pool > 0 {
 			for i := 0; i < nq; i++ {
@@ -1224,7 +1283,16 @@ func c10RunAll(dir string) func(cs []c10Scn) [][]Failure {
 func c10Child(dir string, gi int, batch []c10Scn) ([]c10Scn, string) {
 	for attempt := 0; ; attempt++ {
 		res, died, started := c10ChildOnce(dir, gi, attempt, batch)
-		if died == "" || started {
+		if died == "" {
+			return res, died
+		}
+		if started && strings.HasPrefix(died, "no result within the time limit") && attempt == 0 {
+			c10Stats.mu.Lock()
+			c10Stats.retried = append(c10Stats.retried, fmt.Sprintf("child for pool=%d handletimeout=%d gave no result within its time limit once; run again: %s", batch[0].Cfg.Pool, batch[0].Cfg.HT, c10Trunc(died, 400)))
+			c10Stats.mu.Unlock()
+			continue // like every timing-dependent observation: it counts only if it reproduces
+		}
+		if started {
 			return res, died
 		}
 		if attempt == 3 {
@@ -1245,9 +1313,14 @@ func c10ChildOnce(dir string, gi, attempt int, batch []c10Scn) ([]c10Scn, string
 	if c10Tier != "thorough" && os.Getenv("C10_WAIT_CAP_S") == "" {
 		cmd.Env = append(cmd.Env, "C10_WAIT_CAP_S=12")
 	}
-	sb := &strings.Builder{}
-	cmd.Stderr = &capWriter{sb: sb}
-	cmd.Stdout = cmd.Stderr
+	errPath := filepath.Join(wd, "stderr.txt")
+	errFile, _ := os.Create(errPath)
+	if errFile != nil {
+		defer errFile.Close()
+		cmd.Stderr = errFile
+		cmd.Stdout = errFile
+	}
+	sb := c10FileText(errPath)
 	if err := cmd.Start(); err != nil {
 		fatal("c10 child: %v", err)
 	}
@@ -1259,10 +1332,15 @@ func c10ChildOnce(dir string, gi, attempt int, batch []c10Scn) ([]c10Scn, string
 		if err != nil {
 			died = fmt.Sprintf("exit: %v; stderr: %s", err, c10Trunc(sb.String(), 600))
 		}
-	case <-time.After(time.Duration(120+3*len(batch)) * time.Second):
-		cmd.Process.Kill()
-		<-ch
-		died = "no result within the time limit (hang); stderr: " + c10Trunc(sb.String(), 600)
+	case <-time.After(time.Duration(90+3*len(batch)) * time.Second):
+		cmd.Process.Signal(syscall.SIGQUIT) // goroutine dump into the captured stderr
+		select {
+		case <-ch:
+		case <-time.After(5 * time.Second):
+			cmd.Process.Kill()
+			<-ch
+		}
+		died = "no result within the time limit (hang; goroutine dump in " + errPath + "); harness goroutines: " + c10Trunc(c10HarnessFrames(sb.String()), 900)
 	}
 	var res []c10Scn
 	if ob, err := os.ReadFile(out); err == nil {
@@ -1275,6 +1353,24 @@ func c10ChildOnce(dir string, gi, attempt int, batch []c10Scn) ([]c10Scn, string
 	}
 	_, serr := os.Stat(out + ".started")
 	return res, died, serr == nil
+}
+
+type c10FileText string
+
+func (f c10FileText) String() string {
+	b, _ := os.ReadFile(string(f))
+	return string(b)
+}
+
+// the lines of a goroutine dump that name harness or framework functions (for the failure description)
+func c10HarnessFrames(dump string) string {
+	var out []string
+	for _, l := range strings.Split(dump, "\n") {
+		if strings.HasPrefix(l, "main.c10") || strings.HasPrefix(l, "github.com/TarsCloud/TarsGo/tars") {
+			out = append(out, strings.SplitN(l, "(", 2)[0])
+		}
+	}
+	return strings.Join(out, " | ")
 }
 
 func c10Trunc(s string, n int) string {
